@@ -10,6 +10,7 @@
     exactly the model's `beN` / `decI` / `decILittle`.  Proved once, for all byte values.
 -/
 import Golib.Prim.Extra
+import Golib.Prim.Api
 import Golib.Gen.C01
 
 namespace C01Gen
@@ -113,7 +114,7 @@ def getExpected : List (String × Option (List (Nat × Nat × Bool) × Nat)) :=
    ("ToInt3", some ([(0, 24, false), (1, 16, false), (2, 8, false)], 8)),
    ("ToInt", some (termsBE 4, 0)), ("ToUint", some (termsBE 4, 0)),
    ("ToLong5", some ([(0, 32, true), (1, 24, false), (2, 16, false), (3, 8, false), (4, 0, false)], 0)),
-   ("ToLong", some (termsBE 8, 0)),
+   ("ToLong", some (termsBE 8, 0)), ("ToLong6", some (termsBE 6, 0)),
    ("ToShortLittle", some (termsLE 2, 0)), ("ToUshortLittle", some (termsLE 2, 0)),
    ("ToIntLittle", some (termsLE 4, 0)), ("ToUintLittle", some (termsLE 4, 0)),
    ("ToLongLittle", some (termsLE 8, 0)), ("ToUlongLittle", some (termsLE 8, 0))]
@@ -159,6 +160,14 @@ theorem get_long (h0 : b0 < 256) (h1 : b1 < 256) (h2 : b2 < 256) (h3 : b3 < 256)
     (h4 : b4 < 256) (h5 : b5 < 256) (h6 : b6 < 256) (h7 : b7 < 256) :
     evalGet 8 true (termsBE 8) 0 [b0, b1, b2, b3, b4, b5, b6, b7] = decI 8 [b0, b1, b2, b3, b4, b5, b6, b7] := by
   simp [evalGet, termsBE, byteAt, decI, ofU, unbeN, modulus, List.foldl]
+  omega
+
+/-- `ToLong6` (used by no stream method; exported for six-byte fields): the *unsigned* value of
+    six bytes in an int64 — it cannot go negative -/
+theorem get_long6 (h0 : b0 < 256) (h1 : b1 < 256) (h2 : b2 < 256) (h3 : b3 < 256) (h4 : b4 < 256)
+    (h5 : b5 < 256) :
+    evalGet 8 true (termsBE 6) 0 [b0, b1, b2, b3, b4, b5] = (unbeN [b0, b1, b2, b3, b4, b5] : Nat) := by
+  simp [evalGet, termsBE, byteAt, unbeN, modulus, List.foldl]
   omega
 
 theorem get_short_little (h0 : b0 < 256) (h1 : b1 < 256) :
@@ -226,6 +235,64 @@ theorem blob_shape :
     Gen.C01.blobW = ([253, 65535], [(255, 2), (254, 4)]) ∧
     Gen.C01.blobR = ([(255, "u16"), (254, "i32"), (0, "empty")], "self") := by decide
 
+/-! the blob tables, interpreted: the regenerated thresholds/markers *are* the model's `encBlob`,
+    and the regenerated case list of `ReadBlob` *is* the model's `decBlob`, for all inputs -/
+
+/-- semantics of `blobW`: thresholds of the `sz <=` chain, (marker, width of the length field) -/
+def encBlobTbl (t : List Nat × List (Nat × Nat)) (bs : Bytes) : Bytes :=
+  match t with
+  | ([t1, t2], [(m1, w1), (m2, w2)]) =>
+    if bs.length = 0 then [0]
+    else if bs.length ≤ t1 then bs.length :: bs
+    else if bs.length ≤ t2 then m1 :: (beN w1 bs.length ++ bs)
+    else m2 :: (beN w2 bs.length ++ bs)
+  | _ => []
+
+theorem encBlob_is_table (bs : Bytes) (h : bs.length < 2147483648) :
+    encBlob bs = encBlobTbl Gen.C01.blobW bs := by
+  rw [blob_shape.1]
+  have e : encI 4 (bs.length : Int) = beN 4 bs.length := by
+    unfold encI toU
+    rw [modulus_4, Int.emod_eq_of_lt (by omega) (by omega), Int.toNat_natCast]
+  unfold encBlob encBlobTbl
+  simp only [e]
+
+/-- semantics of the length-reading tags of `blobR` -/
+def lenReader (n : Nat) (tag : String) : P Bytes :=
+  if tag = "u16" then P.bind (rdU 2) (fun k => rdBytes k)
+  else if tag = "i32" then P.bind (rdI 4) (fun k => if k < 0 then .fail else rdBytes k.toNat)
+  else if tag = "empty" then .pure []
+  else if tag = "self" then rdBytes n
+  else .fail
+
+def decBlobTbl (t : List (Nat × String) × String) : P Bytes :=
+  .read 1 (fun b =>
+    match t.1.find? (fun p => p.1 == b.headD 0) with
+    | some p => lenReader (b.headD 0) p.2
+    | none => lenReader (b.headD 0) t.2)
+
+theorem decBlob_is_table : decBlob = decBlobTbl Gen.C01.blobR := by
+  rw [blob_shape.2]
+  unfold decBlob decBlobTbl
+  congr 1
+  funext b
+  generalize b.headD 0 = n
+  by_cases h255 : n = 255
+  · subst h255; rfl
+  by_cases h254 : n = 254
+  · subst h254; rfl
+  by_cases h0 : n = 0
+  · subst h0; rfl
+  have a1 : (255 == n) = false := beq_false_of_ne (Ne.symm h255)
+  have a2 : (254 == n) = false := beq_false_of_ne (Ne.symm h254)
+  have a3 : (0 == n) = false := beq_false_of_ne (Ne.symm h0)
+  have f : List.find? (fun p : Nat × String => p.1 == n) [(255, "u16"), (254, "i32"), (0, "empty")] = none := by
+    simp [List.find?, a1, a2, a3]
+  have g : lenReader n "self" = rdBytes n := by simp [lenReader]
+  rw [f]
+  simp only []
+  rw [g]
+
 theorem arrays_shape :
     Gen.C01.arrays = [
       ("ReadDoubleArray", ["ReadShort", "ReadDouble"]), ("ReadFloatArray", ["ReadShort", "ReadFloat"]),
@@ -261,6 +328,23 @@ theorem decDecimalLen_is_table (n : Nat) :
   match n with
   | 0 | 1 | 2 | 3 | 4 | 5 | 8 => rfl
   | 6 | 7 => rfl
+  | n + 9 => simp [List.find?]
+
+/-- `ReadDecimal`'s regenerated case list, interpreted, is the model's `decDecimal` -/
+theorem decDecimal_is_table :
+    decDecimal = .read 1 (fun b =>
+      match decDecimalLenTbl (b.headD 0) Gen.C01.decimalR.1 Gen.C01.decimalR.2 with
+      | 0 => P.pure 0
+      | w => rdI w) := by
+  rw [decimal_shape.2]
+  unfold decDecimal
+  congr 1
+  funext b
+  generalize b.headD 0 = n
+  unfold decDecimalLen decDecimalLenTbl
+  match n with
+  | 0 | 1 | 2 | 3 | 4 | 5 => rfl
+  | 6 | 7 | 8 => rfl
   | n + 9 => simp [List.find?]
 
 /-- frame headers: reset buffer and counter, then source, version, project code, (hash | oid, key),
@@ -339,5 +423,485 @@ theorem readBytes_shape :
        "}",
        "return buff"] := by
   decide
+
+/-! ### the fixed-width stream readers, interpreted end to end
+
+  `prim_readers_shape` says which helper a `ReadX` hands its bytes to; `get_shape` + `get_*` say what
+  the helper computes.  Here the two regenerated tables are composed and given one semantics
+  (`readerSem` / `readerValue`), and the composition is proved to be the model's `readOp` for all bytes. -/
+
+/-- Go result type of each conversion helper, (bytes, signed) — transcribed from the signatures -/
+def convSig : List (String × (Nat × Bool)) :=
+  [("ToShort", (2, true)), ("ToUShort", (2, false)), ("ToInt3", (4, true)), ("ToInt", (4, true)),
+   ("ToUint", (4, false)), ("ToLong5", (8, true)), ("ToLong", (8, true)),
+   ("ToShortLittle", (2, true)), ("ToUshortLittle", (2, false)), ("ToIntLittle", (4, true)),
+   ("ToUintLittle", (4, false))]
+
+/-- the forms of a reader's return expression: the helper applied to the bytes read, and the width
+    of an outer unsigned conversion (`uint16(…)`) if there is one -/
+def exprForms : List (String × (String × Option Nat)) :=
+  [("ToShort(b, 0)", ("ToShort", none)), ("ToUShort(b, 0)", ("ToUShort", none)),
+   ("ToInt3(b, 0)", ("ToInt3", none)), ("ToInt(b, 0)", ("ToInt", none)), ("ToUint(b, 0)", ("ToUint", none)),
+   ("ToLong5(b, 0)", ("ToLong5", none)), ("ToLong(b, 0)", ("ToLong", none)),
+   ("ToShortLittle(b, 0)", ("ToShortLittle", none)), ("ToIntLittle(b, 0)", ("ToIntLittle", none)),
+   ("ToUintLittle(b, 0)", ("ToUintLittle", none)),
+   ("uint16(ToShort(b, 0))", ("ToShort", some 2)),
+   ("uint16(ToUshortLittle(b, 0))", ("ToUshortLittle", some 2))]
+
+structure ReaderData where
+  rw : Nat
+  signed : Bool
+  terms : List (Nat × Nat × Bool)
+  shr : Nat
+  wrap : Option Nat
+deriving DecidableEq
+
+/-- one entry of the regenerated `primReaders`, resolved through `exprForms`, the regenerated
+    `getTerms` and `convSig`: bytes asked of `ReadBytes`, and (result width, signed, summands, final
+    shift, outer unsigned conversion) -/
+def readerSem (name : String) : Option (Nat × ReaderData) :=
+  match lookup Gen.C01.primReaders name with
+  | some (some (w, expr)) =>
+    match lookup exprForms expr with
+    | some (conv, wrap) =>
+      match lookup Gen.C01.getTerms conv, lookup convSig conv with
+      | some (some (terms, shr)), some (rw, sg) => some (w, ⟨rw, sg, terms, shr, wrap⟩)
+      | _, _ => none
+    | none => none
+  | _ => none
+
+/-- the value a reader returns for the bytes `ReadBytes` gave it -/
+def readerValue (d : ReaderData) (bs : Bytes) : Int :=
+  let f := evalGet d.rw d.signed d.terms d.shr bs
+  match d.wrap with
+  | none => f
+  | some k => f % modulus k
+
+theorem readers_interpreted :
+    readerSem "ReadShort" = some (2, ⟨2, true, termsBE 2, 0, none⟩) ∧
+    readerSem "ReadUShort" = some (2, ⟨2, false, termsBE 2, 0, none⟩) ∧
+    readerSem "ReadUnsignedShort" = some (2, ⟨2, true, termsBE 2, 0, some 2⟩) ∧
+    readerSem "ReadInt3" = some (3, ⟨4, true, [(0, 24, false), (1, 16, false), (2, 8, false)], 8, none⟩) ∧
+    readerSem "ReadInt" = some (4, ⟨4, true, termsBE 4, 0, none⟩) ∧
+    readerSem "ReadUnsignedInt" = some (4, ⟨4, false, termsBE 4, 0, none⟩) ∧
+    readerSem "ReadLong5" = some (5, ⟨8, true, [(0, 32, true), (1, 24, false), (2, 16, false), (3, 8, false), (4, 0, false)], 0, none⟩) ∧
+    readerSem "ReadLong" = some (8, ⟨8, true, termsBE 8, 0, none⟩) ∧
+    readerSem "ReadShortLittle" = some (2, ⟨2, true, termsLE 2, 0, none⟩) ∧
+    readerSem "ReadUnsignedShortLittle" = some (2, ⟨2, false, termsLE 2, 0, some 2⟩) ∧
+    readerSem "ReadIntLittle" = some (4, ⟨4, true, termsLE 4, 0, none⟩) ∧
+    readerSem "ReadUintLittle" = some (4, ⟨4, false, termsLE 4, 0, none⟩) := by
+  decide
+
+theorem run_rdI_bytes (w : Nat) (bs r : Bytes) (h : bs.length = w) :
+    P.run (rdI w) (bs ++ r) = some (decI w bs, r) := by
+  unfold rdI; rw [P.run_read_append _ _ _ _ h]; rfl
+theorem run_rdU_bytes (w : Nat) (bs r : Bytes) (h : bs.length = w) :
+    P.run (rdU w) (bs ++ r) = some (unbeN bs, r) := by
+  unfold rdU; rw [P.run_read_append _ _ _ _ h]; rfl
+theorem run_rdILittle_bytes (w : Nat) (bs r : Bytes) (h : bs.length = w) :
+    P.run (rdILittle w) (bs ++ r) = some (decILittle w bs, r) := by
+  unfold rdILittle; rw [P.run_read_append _ _ _ _ h]; rfl
+theorem run_rdULittle_bytes (w : Nat) (bs r : Bytes) (h : bs.length = w) :
+    P.run (rdULittle w) (bs ++ r) = some (unleN bs, r) := by
+  unfold rdULittle; rw [P.run_read_append _ _ _ _ h]; rfl
+
+section chain
+variable (b0 b1 b2 b3 b4 b5 b6 b7 : Nat) (r : Bytes)
+
+/-- `ReadShort`, from the regenerated tables to the model: for all bytes -/
+theorem read_short_chain (h0 : b0 < 256) (h1 : b1 < 256) :
+    ∃ d, readerSem "ReadShort" = some (2, d) ∧
+      P.run (readOp (.short 0)) ([b0, b1] ++ r) = some (.short (readerValue d [b0, b1]), r) :=
+  ⟨_, readers_interpreted.1, by
+    rw [show readerValue ⟨2, true, termsBE 2, 0, none⟩ [b0, b1] = decI 2 [b0, b1] from get_short b0 b1 h0 h1]
+    exact run_map _ _ _ _ _ (run_rdI_bytes 2 [b0, b1] r rfl)⟩
+
+theorem read_ushort_chain (h0 : b0 < 256) (h1 : b1 < 256) :
+    ∃ d, readerSem "ReadUShort" = some (2, d) ∧
+      P.run (readOp (.ushort 0)) ([b0, b1] ++ r) = some (.ushort (readerValue d [b0, b1]).toNat, r) :=
+  ⟨_, readers_interpreted.2.1, by
+    rw [show readerValue ⟨2, false, termsBE 2, 0, none⟩ [b0, b1] = (unbeN [b0, b1] : Nat) from get_ushort b0 b1 h0 h1]
+    rw [Int.toNat_natCast]
+    exact run_map _ _ _ _ _ (run_rdU_bytes 2 [b0, b1] r rfl)⟩
+
+/-- `ReadUnsignedShort` is `uint16(ToShort(b, 0))`: the signed value wrapped back to 16 bits is the
+    unsigned reading -/
+theorem read_unsigned_short_chain (h0 : b0 < 256) (h1 : b1 < 256) :
+    ∃ d, readerSem "ReadUnsignedShort" = some (2, d) ∧
+      P.run (rdU 2) ([b0, b1] ++ r) = some ((readerValue d [b0, b1]).toNat, r) :=
+  ⟨_, readers_interpreted.2.2.1, by
+    have e : readerValue ⟨2, true, termsBE 2, 0, some 2⟩ [b0, b1] = (unbeN [b0, b1] : Nat) := by
+      show evalGet 2 true (termsBE 2) 0 [b0, b1] % modulus 2 = _
+      rw [get_short b0 b1 h0 h1]
+      simp [decI, ofU, unbeN, modulus]
+      omega
+    rw [e, Int.toNat_natCast]
+    exact run_rdU_bytes 2 [b0, b1] r rfl⟩
+
+theorem read_int3_chain (h0 : b0 < 256) (h1 : b1 < 256) (h2 : b2 < 256) :
+    ∃ d, readerSem "ReadInt3" = some (3, d) ∧
+      P.run (readOp (.int3 0)) ([b0, b1, b2] ++ r) = some (.int3 (readerValue d [b0, b1, b2]), r) :=
+  ⟨_, readers_interpreted.2.2.2.1, by
+    rw [show readerValue ⟨4, true, [(0, 24, false), (1, 16, false), (2, 8, false)], 8, none⟩ [b0, b1, b2]
+      = decI 3 [b0, b1, b2] from get_int3 b0 b1 b2 h0 h1 h2]
+    exact run_map _ _ _ _ _ (run_rdI_bytes 3 [b0, b1, b2] r rfl)⟩
+
+theorem read_int_chain (h0 : b0 < 256) (h1 : b1 < 256) (h2 : b2 < 256) (h3 : b3 < 256) :
+    ∃ d, readerSem "ReadInt" = some (4, d) ∧
+      P.run (readOp (.int 0)) ([b0, b1, b2, b3] ++ r) = some (.int (readerValue d [b0, b1, b2, b3]), r) :=
+  ⟨_, readers_interpreted.2.2.2.2.1, by
+    rw [show readerValue ⟨4, true, termsBE 4, 0, none⟩ [b0, b1, b2, b3] = decI 4 [b0, b1, b2, b3]
+      from get_int b0 b1 b2 b3 h0 h1 h2 h3]
+    exact run_map _ _ _ _ _ (run_rdI_bytes 4 [b0, b1, b2, b3] r rfl)⟩
+
+theorem read_unsigned_int_chain (h0 : b0 < 256) (h1 : b1 < 256) (h2 : b2 < 256) (h3 : b3 < 256) :
+    ∃ d, readerSem "ReadUnsignedInt" = some (4, d) ∧
+      P.run (rdU 4) ([b0, b1, b2, b3] ++ r) = some ((readerValue d [b0, b1, b2, b3]).toNat, r) :=
+  ⟨_, readers_interpreted.2.2.2.2.2.1, by
+    rw [show readerValue ⟨4, false, termsBE 4, 0, none⟩ [b0, b1, b2, b3] = (unbeN [b0, b1, b2, b3] : Nat)
+      from get_uint b0 b1 b2 b3 h0 h1 h2 h3]
+    rw [Int.toNat_natCast]
+    exact run_rdU_bytes 4 [b0, b1, b2, b3] r rfl⟩
+
+theorem read_long5_chain (h0 : b0 < 256) (h1 : b1 < 256) (h2 : b2 < 256) (h3 : b3 < 256) (h4 : b4 < 256) :
+    ∃ d, readerSem "ReadLong5" = some (5, d) ∧
+      P.run (readOp (.long5 0)) ([b0, b1, b2, b3, b4] ++ r) =
+        some (.long5 (readerValue d [b0, b1, b2, b3, b4]), r) :=
+  ⟨_, readers_interpreted.2.2.2.2.2.2.1, by
+    rw [show readerValue ⟨8, true, [(0, 32, true), (1, 24, false), (2, 16, false), (3, 8, false), (4, 0, false)], 0, none⟩
+      [b0, b1, b2, b3, b4] = decI 5 [b0, b1, b2, b3, b4] from get_long5 b0 b1 b2 b3 b4 h0 h1 h2 h3 h4]
+    exact run_map _ _ _ _ _ (run_rdI_bytes 5 [b0, b1, b2, b3, b4] r rfl)⟩
+
+theorem read_long_chain (h0 : b0 < 256) (h1 : b1 < 256) (h2 : b2 < 256) (h3 : b3 < 256)
+    (h4 : b4 < 256) (h5 : b5 < 256) (h6 : b6 < 256) (h7 : b7 < 256) :
+    ∃ d, readerSem "ReadLong" = some (8, d) ∧
+      P.run (readOp (.long 0)) ([b0, b1, b2, b3, b4, b5, b6, b7] ++ r) =
+        some (.long (readerValue d [b0, b1, b2, b3, b4, b5, b6, b7]), r) :=
+  ⟨_, readers_interpreted.2.2.2.2.2.2.2.1, by
+    rw [show readerValue ⟨8, true, termsBE 8, 0, none⟩ [b0, b1, b2, b3, b4, b5, b6, b7]
+      = decI 8 [b0, b1, b2, b3, b4, b5, b6, b7] from get_long b0 b1 b2 b3 b4 b5 b6 b7 h0 h1 h2 h3 h4 h5 h6 h7]
+    exact run_map _ _ _ _ _ (run_rdI_bytes 8 [b0, b1, b2, b3, b4, b5, b6, b7] r rfl)⟩
+
+theorem read_short_little_chain (h0 : b0 < 256) (h1 : b1 < 256) :
+    ∃ d, readerSem "ReadShortLittle" = some (2, d) ∧
+      P.run (rdILittle 2) ([b0, b1] ++ r) = some (readerValue d [b0, b1], r) :=
+  ⟨_, readers_interpreted.2.2.2.2.2.2.2.2.1, by
+    rw [show readerValue ⟨2, true, termsLE 2, 0, none⟩ [b0, b1] = decILittle 2 [b0, b1]
+      from get_short_little b0 b1 h0 h1]
+    exact run_rdILittle_bytes 2 [b0, b1] r rfl⟩
+
+theorem read_unsigned_short_little_chain (h0 : b0 < 256) (h1 : b1 < 256) :
+    ∃ d, readerSem "ReadUnsignedShortLittle" = some (2, d) ∧
+      P.run (rdULittle 2) ([b0, b1] ++ r) = some ((readerValue d [b0, b1]).toNat, r) :=
+  ⟨_, readers_interpreted.2.2.2.2.2.2.2.2.2.1, by
+    have e : readerValue ⟨2, false, termsLE 2, 0, some 2⟩ [b0, b1] = (unleN [b0, b1] : Nat) := by
+      show evalGet 2 false (termsLE 2) 0 [b0, b1] % modulus 2 = _
+      rw [get_ushort_little b0 b1 h0 h1]
+      simp [unleN, unbeN, modulus]
+      omega
+    rw [e, Int.toNat_natCast]
+    exact run_rdULittle_bytes 2 [b0, b1] r rfl⟩
+
+theorem read_int_little_chain (h0 : b0 < 256) (h1 : b1 < 256) (h2 : b2 < 256) (h3 : b3 < 256) :
+    ∃ d, readerSem "ReadIntLittle" = some (4, d) ∧
+      P.run (rdILittle 4) ([b0, b1, b2, b3] ++ r) = some (readerValue d [b0, b1, b2, b3], r) :=
+  ⟨_, readers_interpreted.2.2.2.2.2.2.2.2.2.2.1, by
+    rw [show readerValue ⟨4, true, termsLE 4, 0, none⟩ [b0, b1, b2, b3] = decILittle 4 [b0, b1, b2, b3]
+      from get_int_little b0 b1 b2 b3 h0 h1 h2 h3]
+    exact run_rdILittle_bytes 4 [b0, b1, b2, b3] r rfl⟩
+
+theorem read_uint_little_chain (h0 : b0 < 256) (h1 : b1 < 256) (h2 : b2 < 256) (h3 : b3 < 256) :
+    ∃ d, readerSem "ReadUintLittle" = some (4, d) ∧
+      P.run (rdULittle 4) ([b0, b1, b2, b3] ++ r) = some ((readerValue d [b0, b1, b2, b3]).toNat, r) :=
+  ⟨_, readers_interpreted.2.2.2.2.2.2.2.2.2.2.2, by
+    rw [show readerValue ⟨4, false, termsLE 4, 0, none⟩ [b0, b1, b2, b3] = (unleN [b0, b1, b2, b3] : Nat)
+      from get_uint_little b0 b1 b2 b3 h0 h1 h2 h3]
+    rw [Int.toNat_natCast]
+    exact run_rdULittle_bytes 4 [b0, b1, b2, b3] r rfl⟩
+end chain
+
+-- non-vacuity: the chain computes concrete values from the regenerated tables
+example : (readerSem "ReadInt3").map (fun p => readerValue p.2 [255, 255, 254]) = some (-2) := by decide
+example : (readerSem "ReadUnsignedShort").map (fun p => readerValue p.2 [255, 254]) = some 65534 := by decide
+
+/-! ### the fixed-width stream writers, interpreted end to end (`prim_writers_shape` ∘ `put_shape`) -/
+
+/-- the forms of the expression a fixed-width writer hands to `WriteBytes` -/
+def writerForms : List (String × String) :=
+  [("ToBytesShort(b)", "ToBytesShort"), ("ToBytesUShort(b)", "ToBytesUShort"), ("ToBytesInt3(b)", "ToBytesInt3"),
+   ("ToBytesInt(b)", "ToBytesInt"), ("ToBytesLong5(b)", "ToBytesLong5"), ("ToBytesLong(b)", "ToBytesLong")]
+
+/-- one entry of the regenerated `primWriters`, resolved to the regenerated shift table of the helper it calls -/
+def writerSem (name : String) : Option (List (Nat × Nat)) :=
+  match lookup Gen.C01.primWriters name with
+  | some (some expr) =>
+    match lookup writerForms expr with
+    | some helper =>
+      match lookup Gen.C01.putShifts helper with
+      | some (some t) => some t
+      | _ => none
+    | none => none
+  | _ => none
+
+theorem writers_interpreted :
+    writerSem "WriteShort" = some (shiftsBE 2) ∧ writerSem "WriteUShort" = some (shiftsBE 2) ∧
+    writerSem "WriteInt3" = some (shiftsBE 3) ∧ writerSem "WriteInt" = some (shiftsBE 4) ∧
+    writerSem "WriteLong5" = some (shiftsBE 5) ∧ writerSem "WriteLong" = some (shiftsBE 8) := by
+  decide
+
+/-- from the regenerated tables to the model's `writeOp`, for all values: the bytes a fixed-width
+    writer appends are the regenerated shift table of its helper evaluated on the two's-complement
+    pattern of the argument (which is what Go's `byte(v >> s)` computes: `put_byte_signed`) -/
+theorem write_chain (v : Int) (n : Nat) :
+    (∃ t, writerSem "WriteShort" = some t ∧ writeOp (.short v) = evalPut t (toU 2 v)) ∧
+    (∃ t, writerSem "WriteUShort" = some t ∧ writeOp (.ushort n) = evalPut t n) ∧
+    (∃ t, writerSem "WriteInt3" = some t ∧ writeOp (.int3 v) = evalPut t (toU 3 v)) ∧
+    (∃ t, writerSem "WriteInt" = some t ∧ writeOp (.int v) = evalPut t (toU 4 v)) ∧
+    (∃ t, writerSem "WriteLong5" = some t ∧ writeOp (.long5 v) = evalPut t (toU 5 v)) ∧
+    (∃ t, writerSem "WriteLong" = some t ∧ writeOp (.long v) = evalPut t (toU 8 v)) :=
+  ⟨⟨_, writers_interpreted.1, (put_table_signed 2 v).symm⟩,
+   ⟨_, writers_interpreted.2.1, (evalPut_shiftsBE 2 n).symm⟩,
+   ⟨_, writers_interpreted.2.2.1, (put_table_signed 3 v).symm⟩,
+   ⟨_, writers_interpreted.2.2.2.1, (put_table_signed 4 v).symm⟩,
+   ⟨_, writers_interpreted.2.2.2.2.1, (put_table_signed 5 v).symm⟩,
+   ⟨_, writers_interpreted.2.2.2.2.2, (put_table_signed 8 v).symm⟩⟩
+
+example : (writerSem "WriteInt3").map (fun t => evalPut t (toU 3 (-2))) = some [255, 255, 254] := by decide
+
+/-! ### the array readers, interpreted (`Gen.C01.arrayReaders`)
+
+  The translator recognises the whole body of a `Read*Array`: count reader, `if sz == 0` shortcut,
+  `CheckCount(sz, minBytes)`, `make`, the element loop.  Which reader reads the count and the
+  elements is golden (`array_readers_names`); the shortcut and the guard constant are *interpreted*:
+  `Prim.arrSemG` runs the structure with whatever constants were regenerated, and it is the model's
+  decoder on every input as long as the guard does not ask for more bytes per element than an
+  element has (`array_guards_sound`, evaluated on the regenerated constants) — so a harmless change
+  of a guard constant keeps the obligation, a harmful one breaks it. -/
+
+def guardOf (name : String) : Nat :=
+  match lookup Gen.C01.arrayReaders name with
+  | some (some t) => t.2.2.1
+  | _ => 0
+def zeroOf (name : String) : Bool :=
+  match lookup Gen.C01.arrayReaders name with
+  | some (some t) => t.2.1
+  | _ => false
+
+theorem array_readers_names :
+    (Gen.C01.arrayReaders.map (fun e => (e.1, e.2.map (fun t => (t.1, t.2.2.2.1, t.2.2.2.2)))) ==
+      [("ReadDecimalArray", some ("ReadDecimal", "ReadDecimal", "")),
+       ("ReadDecimalArrayInt", some ("ReadDecimal", "ReadDecimal", "int32")),
+       ("ReadDoubleArray", some ("ReadShort", "ReadDouble", "")), ("ReadFloatArray", some ("ReadShort", "ReadFloat", "")),
+       ("ReadIntArray", some ("ReadShort", "ReadInt", "")), ("ReadLongArray", some ("ReadShort", "ReadLong", "")),
+       ("ReadShortArray", some ("ReadShort", "ReadShort", "")), ("ReadTextArray", some ("ReadShort", "ReadText", ""))]) = true := by
+  decide
+
+/-- no guard asks for more bytes per element than the element's reader consumes -/
+theorem array_guards_sound :
+    guardOf "ReadShortArray" ≤ 2 ∧ guardOf "ReadIntArray" ≤ 4 ∧ guardOf "ReadLongArray" ≤ 8 ∧
+    guardOf "ReadFloatArray" ≤ 4 ∧ guardOf "ReadDoubleArray" ≤ 8 ∧ guardOf "ReadTextArray" ≤ 1 ∧
+    guardOf "ReadDecimalArray" ≤ 1 ∧ guardOf "ReadDecimalArrayInt" ≤ 1 := by
+  decide
+
+/-- every array read, run as its regenerated structure says (shortcut, guard constant), is the
+    model's array decoder — for all inputs, well formed or not -/
+theorem array_readers_interpreted (bs : Bytes) :
+    arrSemG (rdI 2) (zeroOf "ReadShortArray") (guardOf "ReadShortArray") (rdI 2) bs = P.run (decArr (rdI 2)) bs ∧
+    arrSemG (rdI 2) (zeroOf "ReadIntArray") (guardOf "ReadIntArray") (rdI 4) bs = P.run (decArr (rdI 4)) bs ∧
+    arrSemG (rdI 2) (zeroOf "ReadLongArray") (guardOf "ReadLongArray") (rdI 8) bs = P.run (decArr (rdI 8)) bs ∧
+    arrSemG (rdI 2) (zeroOf "ReadFloatArray") (guardOf "ReadFloatArray") (rdU 4) bs = P.run (decArr (rdU 4)) bs ∧
+    arrSemG (rdI 2) (zeroOf "ReadDoubleArray") (guardOf "ReadDoubleArray") (rdU 8) bs = P.run (decArr (rdU 8)) bs ∧
+    arrSemG (rdI 2) (zeroOf "ReadTextArray") (guardOf "ReadTextArray") decBlob bs = P.run (decArr decBlob) bs ∧
+    arrSemG decDecimal (zeroOf "ReadDecimalArray") (guardOf "ReadDecimalArray") decDecimal bs = P.run decDecArr bs ∧
+    (arrSemG decDecimal (zeroOf "ReadDecimalArrayInt") (guardOf "ReadDecimalArrayInt") decDecimal bs).map
+        (fun p => (p.1.map narrow32, p.2)) = P.run decDecArrInt bs :=
+  have g := array_guards_sound
+  ⟨arrSemG_eq _ _ 2 (consumes_rdI 2) _ _ g.1 bs, arrSemG_eq _ _ 4 (consumes_rdI 4) _ _ g.2.1 bs,
+   arrSemG_eq _ _ 8 (consumes_rdI 8) _ _ g.2.2.1 bs, arrSemG_eq _ _ 4 (consumes_rdU 4) _ _ g.2.2.2.1 bs,
+   arrSemG_eq _ _ 8 (consumes_rdU 8) _ _ g.2.2.2.2.1 bs, arrSemG_eq _ _ 1 consumes_decBlob _ _ g.2.2.2.2.2.1 bs,
+   arrSemG_eq _ _ 1 consumes_decDecimal _ _ g.2.2.2.2.2.2.1 bs,
+   by rw [arrSemG_eq _ _ 1 consumes_decDecimal _ _ g.2.2.2.2.2.2.2 bs]; exact (run_map_eq _ _ bs).symm⟩
+
+-- non-vacuity: the entries exist and were recognised (no constant is named here: a harmless change of one must not break anything)
+example : Gen.C01.arrayReaders.all (fun e => e.2.isSome) = true ∧ 1 ≤ guardOf "ReadLongArray" := by decide
+
+/-! ### the frame-header writers, interpreted (`header_calls_shape` given a semantics)
+
+  The regenerated call sequence of a header writer is *run*: every call name is a step on the
+  stream state (buffer, counter, the saved payload) and takes its arguments in source order.  The
+  result is the model's `Writer.header` / `Writer.secureHeader` for all arguments and all streams. -/
+
+inductive HArg where
+  | n (v : Nat)
+  | i (v : Int)
+
+structure HState where
+  w : Writer
+  saved : Bytes
+  args : List HArg
+
+/-- one call of a header writer's body; arguments are consumed in order -/
+def runCall (st : HState) (c : String) : Option HState :=
+  if c = "buffer.Bytes" then some { st with saved := st.w.buf }
+  else if c = "buffer.Reset" then some { st with w := ⟨[], st.w.written⟩ }
+  else if c = "written=0" then some { st with w := ⟨st.w.rev, 0⟩ }
+  else if c = "WriteByte" then
+    match st.args with
+    | .n v :: t => some { st with w := st.w.put [v], args := t }
+    | _ => none
+  else if c = "WriteLong" then
+    match st.args with
+    | .i v :: t => some { st with w := st.w.put (encI 8 v), args := t }
+    | _ => none
+  else if c = "WriteInt" then
+    match st.args with
+    | .i v :: t => some { st with w := st.w.put (encI 4 v), args := t }
+    | _ => none
+  else if c = "WriteIntBytes" then some { st with w := st.w.op (.intBytes st.saved) }
+  else none
+
+def runCalls : List String → HState → Option HState
+  | [], st => some st
+  | c :: cs, st =>
+    match runCall st c with
+    | some st' => runCalls cs st'
+    | none => none
+
+/-- a header writer, run as its regenerated call sequence says; every argument must be used -/
+def headerSem (name : String) (w : Writer) (args : List HArg) : Option Writer :=
+  match lookup Gen.C01.callSeqs name with
+  | some cs =>
+    match runCalls cs ⟨w, [], args⟩ with
+    | some st => if st.args.isEmpty then some st.w else none
+    | none => none
+  | none => none
+
+theorem header_interpreted (w : Writer) (src ver : Nat) (pcode lic : Int) :
+    headerSem "WriteHeader" w [.n src, .n ver, .i pcode, .i lic] = some (w.header src ver pcode lic) ∧
+    headerSem "WriteOneWayHeader" w [.n src, .n ver, .i pcode, .i lic] = some (w.header src ver pcode lic) := by
+  have h := header_calls_shape
+  constructor
+  · simp only [headerSem, h.1]
+    rfl
+  · simp only [headerSem, h.2.1, h.1]
+    rfl
+
+theorem secure_header_interpreted (w : Writer) (src ver : Nat) (pcode oid key : Int) :
+    headerSem "WriteSecureHeader" w [.n src, .n ver, .i pcode, .i oid, .i key] =
+      some (w.secureHeader src ver pcode oid key) := by
+  simp only [headerSem, header_calls_shape.2.2]
+  rfl
+
+/-! ### the array writers, interpreted (`Gen.C01.arrayWriters`)
+
+  The translator recognises the whole body of a `Write*Array`:
+  `if v == nil { out.WriteShort(lit) } else { sz := len(v); out.WriteShort(int16(sz)); for … { out.WriteX(v[i]) } }`.
+  Which writers are called is golden (`array_writers_names`); the literal of the nil branch is
+  interpreted: the structure, run with the regenerated literal, is the model's `encArr` — and so a
+  nil array and an empty one are the same bytes ("nil and empty … are the same value on the wire"). -/
+
+/-- the array writer as its structure says: `none` is a nil slice -/
+def arrWSemG (nilLit : Nat) (enc : α → Bytes) : Option (List α) → Bytes
+  | none => encI 2 nilLit
+  | some xs => encI 2 xs.length ++ encMany enc xs
+
+def nilLitOf (name : String) : Nat :=
+  match lookup Gen.C01.arrayWriters name with
+  | some (some t) => t.2.1
+  | _ => 1
+
+theorem arrWSemG_eq (enc : α → Bytes) (v : Option (List α)) :
+    arrWSemG 0 enc v = encArr enc (v.getD []) := by
+  cases v with
+  | none => simp [arrWSemG, encArr, encMany]
+  | some xs => rfl
+
+theorem array_writers_names :
+    (Gen.C01.arrayWriters.map (fun e => (e.1, e.2.map (fun t => (t.1, t.2.2.1, t.2.2.2.1, t.2.2.2.2)))) ==
+      [("WriteDoubleArray", some ("WriteShort", "WriteShort", "int16", "WriteDouble")),
+       ("WriteFloatArray", some ("WriteShort", "WriteShort", "int16", "WriteFloat")),
+       ("WriteIntArray", some ("WriteShort", "WriteShort", "int16", "WriteInt")),
+       ("WriteLongArray", some ("WriteShort", "WriteShort", "int16", "WriteLong")),
+       ("WriteShortArray", some ("WriteShort", "WriteShort", "int16", "WriteShort")),
+       ("WriteTextArray", some ("WriteShort", "WriteShort", "int16", "WriteText"))]) = true := by
+  decide
+
+theorem array_writers_nil_literal :
+    nilLitOf "WriteShortArray" = 0 ∧ nilLitOf "WriteIntArray" = 0 ∧ nilLitOf "WriteLongArray" = 0 ∧
+    nilLitOf "WriteFloatArray" = 0 ∧ nilLitOf "WriteDoubleArray" = 0 ∧ nilLitOf "WriteTextArray" = 0 := by
+  decide
+
+/-- every array writer, run as its regenerated structure says, emits the model's `writeOp` of the
+    array op — nil and empty alike -/
+theorem array_writers_interpreted (is : Option (List Int)) (ns : Option (List Nat)) (ts : Option (List Bytes)) :
+    arrWSemG (nilLitOf "WriteShortArray") (encI 2) is = writeOp (.shortArr (is.getD [])) ∧
+    arrWSemG (nilLitOf "WriteIntArray") (encI 4) is = writeOp (.intArr (is.getD [])) ∧
+    arrWSemG (nilLitOf "WriteLongArray") (encI 8) is = writeOp (.longArr (is.getD [])) ∧
+    arrWSemG (nilLitOf "WriteFloatArray") (beN 4) ns = writeOp (.floatArr (ns.getD [])) ∧
+    arrWSemG (nilLitOf "WriteDoubleArray") (beN 8) ns = writeOp (.doubleArr (ns.getD [])) ∧
+    arrWSemG (nilLitOf "WriteTextArray") encBlob ts = writeOp (.textArr (ts.getD [])) := by
+  have g := array_writers_nil_literal
+  rw [g.1, g.2.1, g.2.2.1, g.2.2.2.1, g.2.2.2.2.1, g.2.2.2.2.2]
+  exact ⟨arrWSemG_eq _ _, arrWSemG_eq _ _, arrWSemG_eq _ _, arrWSemG_eq _ _, arrWSemG_eq _ _, arrWSemG_eq _ _⟩
+
+/-- nil and empty arrays are the same value on the wire -/
+theorem nil_is_empty_array (enc : α → Bytes) : arrWSemG 0 enc none = arrWSemG 0 enc (some []) := by
+  rw [arrWSemG_eq, arrWSemG_eq]; rfl
+
+/-! ### the length-prefixed byte-string writers, interpreted (`Gen.C01.lenPrefixed`)
+
+  `if b == nil || len(b) == 0 { out.WriteX(lit) } else { out.WriteX(conv(len(b))); out.WriteBytes(b) }`
+  (for `WriteTextShortLength`: `if v == "" …`, `b := []byte(v)`).  The writers called are golden; the
+  literal of the nil/empty branch is interpreted. -/
+
+/-- the writer as its structure says, with a `w`-byte length field: `none` is nil -/
+def lpSem (w nilLit : Nat) : Option Bytes → Bytes
+  | none => encI w nilLit
+  | some bs => if bs.length = 0 then encI w nilLit else encI w bs.length ++ bs
+
+def lpLitOf (name : String) : Nat :=
+  match lookup Gen.C01.lenPrefixed name with
+  | some (some t) => t.2.1
+  | _ => 1
+
+theorem encI_nat (w n : Nat) (h : n < 256 ^ w) : encI w (n : Int) = beN w n := by
+  unfold encI toU modulus
+  rw [Int.emod_eq_of_lt (by omega) (by exact_mod_cast h), Int.toNat_natCast]
+
+theorem len_prefixed_names :
+    (Gen.C01.lenPrefixed.map (fun e => (e.1, e.2.map (fun t => (t.1, t.2.2.1, t.2.2.2)))) ==
+      [("WriteIntBytes", some ("WriteInt", "WriteInt", "int32")),
+       ("WriteShortBytes", some ("WriteShort", "WriteShort", "int16")),
+       ("WriteTextShortLength", some ("WriteShort", "WriteShort", "int16"))]) = true := by
+  decide
+
+theorem len_prefixed_nil_literal :
+    lpLitOf "WriteIntBytes" = 0 ∧ lpLitOf "WriteShortBytes" = 0 ∧ lpLitOf "WriteTextShortLength" = 0 := by
+  decide
+
+/-- run as their regenerated structure says, the three writers emit the model's `writeOp` — for nil,
+    empty and every other byte string the length field can represent -/
+theorem len_prefixed_interpreted (v : Option Bytes) (h16 : (v.getD []).length ≤ 65535) :
+    lpSem 4 (lpLitOf "WriteIntBytes") v = writeOp (.intBytes (v.getD [])) ∧
+    lpSem 2 (lpLitOf "WriteShortBytes") v = writeOp (.shortBytes (v.getD [])) ∧
+    lpSem 2 (lpLitOf "WriteTextShortLength") v = writeOp (.textShort (v.getD [])) := by
+  have g := len_prefixed_nil_literal
+  rw [g.1, g.2.1, g.2.2]
+  have z4 : encI 4 ((0 : Nat) : Int) = encI 4 0 := rfl
+  cases v with
+  | none => exact ⟨rfl, rfl, rfl⟩
+  | some bs =>
+    simp only [Option.getD_some] at h16
+    have e2 : encI 2 (bs.length : Int) = beN 2 bs.length := encI_nat 2 bs.length (by simp; omega)
+    by_cases h0 : bs.length = 0
+    · have : bs = [] := List.eq_nil_of_length_eq_zero h0
+      subst this
+      exact ⟨rfl, rfl, rfl⟩
+    · simp only [lpSem, h0, if_false, Option.getD_some, writeOp, encBytes32, encBytes16, e2]
+      exact ⟨trivial, trivial, trivial⟩
+
+/-- nil and empty byte strings are the same value on the wire -/
+theorem nil_is_empty_bytes (w : Nat) : lpSem w 0 none = lpSem w 0 (some []) := rfl
+
 
 end C01Gen
